@@ -4,21 +4,30 @@ import (
 	"context"
 	"errors"
 	"fmt"
+	"io"
 	"runtime/debug"
 	"runtime/metrics"
 	"strings"
 	"sync/atomic"
 
 	"github.com/streamingfast/bstream"
+	"github.com/streamingfast/bstream/stream"
+	"github.com/streamingfast/dmetering"
 	"github.com/streamingfast/dstore"
+	"github.com/streamingfast/substreams"
+	"github.com/streamingfast/substreams/orchestrator/loop"
 	"github.com/streamingfast/substreams/orchestrator/plan"
+	"github.com/streamingfast/substreams/orchestrator/response"
+	"github.com/streamingfast/substreams/orchestrator/stage"
+	"github.com/streamingfast/substreams/orchestrator/work"
 	pbssinternal "github.com/streamingfast/substreams/pb/sf/substreams/intern/v2"
 	pbsubstreamsrpc "github.com/streamingfast/substreams/pb/sf/substreams/rpc/v2"
 	"github.com/streamingfast/substreams/pipeline"
 	"github.com/streamingfast/substreams/pipeline/exec"
+	"github.com/streamingfast/substreams/reqctx"
 	"github.com/streamingfast/substreams/service"
+	"github.com/streamingfast/substreams/service/config"
 	"github.com/streamingfast/substreams/storage/execout"
-	"github.com/streamingfast/substreams/storage/index"
 	"github.com/streamingfast/substreams/storage/store"
 	"go.uber.org/zap"
 )
@@ -35,6 +44,8 @@ type outcome struct {
 	panicFn    string
 	stack      string
 	nilResult  string // stage that returned (nil result, nil error)
+	route      string // "real": the real blocks()/processRange ran; "restated": tier1 chain with stub callbacks
+	sanitized  bool   // a store URL of the tier2 request was replaced by an in-memory one
 
 	memStage  string // stage with the largest heap growth
 	memGrowth int64
@@ -114,6 +125,46 @@ func (o *outcome) do(name string, f func() error) (cont bool) {
 	return true
 }
 
+// ---------------------------------------------------------------- common wiring of the real services
+
+// noBlocks is the block source handed to the real services: it delivers no block and ends at once.
+type noBlocks struct{}
+
+func (noBlocks) Run(ctx context.Context) error { return io.EOF }
+
+func noBlockStreamFactory(ctx context.Context, h bstream.Handler, startBlockNum int64, stopBlockNum uint64, cursor string, finalBlocksOnly bool, cursorIsTarget bool, logger *zap.Logger, extraOpts ...stream.Option) (service.Streamable, error) {
+	return noBlocks{}, nil
+}
+
+var errNoTier2 = errors.New("no tier2 in this check")
+
+// failingWorker answers every parallel job with an immediate failure: this check has no tier2 behind tier1.
+type failingWorker struct{}
+
+func (failingWorker) ID() string { return "c17-worker" }
+func (failingWorker) Work(ctx context.Context, unit stage.Unit, startBlock uint64, moduleNames []string, upstream *response.Stream) loop.Cmd {
+	return func() loop.Msg { return work.MsgJobFailed{Unit: unit, Error: errNoTier2} }
+}
+
+func discard(substreams.ResponseFromAnyTier) error { return nil }
+
+var memStoreSeq int
+
+func freshMemoryURL(tag string) string {
+	memStoreSeq++
+	return fmt.Sprintf("memory://c17-%s-%d", tag, memStoreSeq)
+}
+
+func serviceContext(parent context.Context, p reqctx.Tier2RequestParameters) (context.Context, error) {
+	ctx := dmetering.WithBytesMeter(parent)
+	ctx = reqctx.WithTier2RequestParameters(ctx, p)
+	emitter, err := dmetering.New("null://", zap.NewNop())
+	if err != nil {
+		return nil, err
+	}
+	return reqctx.WithEmitter(ctx, emitter), nil
+}
+
 // ---------------------------------------------------------------- tier 1
 
 // t1env is the server side of a tier1 request: chain constants and the answers of the three callbacks.
@@ -129,27 +180,36 @@ type t1env struct {
 
 var errStub = errors.New("stub: unknown")
 
-var memStore dstore.Store
-
-func cacheStore() dstore.Store {
-	if memStore == nil {
-		s, err := dstore.NewStore("memory://c17", "", "", false)
-		if err != nil {
-			panic(err)
-		}
-		memStore = s
+// needsCallbacks tells whether Tier1Service.blocks would call getHeadBlock or resolveCursor for this request.
+// service.TestNewService leaves both nil (an artefact of the test constructor), so those requests cannot go
+// through the real blocks(); they run through the restated chain below instead.
+func needsCallbacks(request *pbsubstreamsrpc.Request) bool {
+	if request.StartBlockNum < 0 {
+		return true
 	}
-	return memStore
+	if request.StartCursor == "" {
+		return false
+	}
+	cursor, err := bstream.CursorFromOpaque(request.StartCursor)
+	if err != nil {
+		return false // rejected before any callback
+	}
+	if request.StopBlockNum > 0 && request.StopBlockNum < cursor.Block.Num() {
+		return false
+	}
+	if cursor.IsOnFinalBlock() || cursor.LIB.Num() > cursor.Block.Num() {
+		return false
+	}
+	return true
 }
 
-// runTier1 chains the calls exactly as service.Tier1Service.Blocks and .blocks do, up to the request plan.
-func runTier1(o *outcome, request *pbsubstreamsrpc.Request, env t1env) {
-	ctx := context.Background()
-	logger := zap.NewNop()
+// runTier1: request validation as Tier1Service.Blocks does it, then the REAL Tier1Service.blocks through
+// service.TestNewService(...).TestBlocks with a block source that delivers no block and a worker that fails every
+// parallel job; only requests that need the head-block / cursor-resolution callbacks take the restated chain.
+func runTier1(ctx context.Context, o *outcome, request *pbsubstreamsrpc.Request, env t1env) {
 	const blockType = testBlockType
 	bstream.GetProtocolFirstStreamableBlock = env.FirstStreamable
 
-	// --- Blocks()
 	if !o.do("t1/validate", func() error {
 		if request.Modules == nil {
 			return fmt.Errorf("missing modules in request")
@@ -158,26 +218,56 @@ func runTier1(o *outcome, request *pbsubstreamsrpc.Request, env t1env) {
 	}) {
 		return
 	}
+	if needsCallbacks(request) {
+		o.route = "restated"
+		runTier1Restated(ctx, o, request, env)
+		return
+	}
+	o.route = "real"
+	o.do("t1/blocks", func() error {
+		base, err := dstore.NewStore(freshMemoryURL("t1"), "zst", "zstd", true)
+		if err != nil {
+			return fmt.Errorf("harness: %w", err)
+		}
+		rc := config.RuntimeConfig{
+			SegmentSize:                env.SegmentSize,
+			MaxJobsAhead:               10,
+			DefaultParallelSubrequests: 2,
+			BaseObjectStore:            base,
+			DefaultCacheTag:            "tag",
+			WorkerFactory:              func(*zap.Logger) work.Worker { return failingWorker{} },
+		}
+		final := env.FinalBlock
+		if env.FinalErr {
+			final = 0 // TestNewService: 0 = no live feed
+		}
+		sctx, err := serviceContext(ctx, reqctx.Tier2RequestParameters{
+			MeteringConfig: "null://", FirstStreamableBlock: env.FirstStreamable, MergedBlockStoreURL: "memory://c17-blocks", StateStoreURL: "memory://c17-state",
+			StateBundleSize: env.SegmentSize, StateStoreDefaultTag: "tag", BlockType: blockType,
+		})
+		if err != nil {
+			return fmt.Errorf("harness: %w", err)
+		}
+		return service.TestNewService(rc, final, noBlockStreamFactory).TestBlocks(sctx, false, request, discard)
+	})
+}
+
+// runTier1Restated chains the exported functions in the order Tier1Service.blocks does, up to the request plan,
+// with stub callbacks. Only used for requests with a negative start block or a cursor that needs resolution.
+func runTier1Restated(ctx context.Context, o *outcome, request *pbsubstreamsrpc.Request, env t1env) {
+	logger := zap.NewNop()
 	var execGraph *exec.Graph
-	if !o.do("graph", func() (err error) {
+	if !o.do("t1r/graph", func() (err error) {
 		execGraph, err = exec.NewOutputModuleGraph(request.OutputModule, request.ProductionMode, request.Modules, bstream.GetProtocolFirstStreamableBlock)
 		if err == nil && execGraph == nil {
-			o.nilResult = "graph"
+			o.nilResult = "t1r/graph"
 		}
 		return err
 	}) || o.nilResult != "" {
 		return
 	}
-	if !o.do("t1/hashes", func() error {
-		_ = execGraph.ModuleHashes().Get(request.OutputModule)
-		return nil
-	}) {
-		return
-	}
-
-	// --- blocks()
 	chainFirstStreamableBlock := bstream.GetProtocolFirstStreamableBlock
-	if !o.do("t1/start-block", func() error {
+	if !o.do("t1r/start-block", func() error {
 		if request.StartBlockNum > 0 && request.StartBlockNum < int64(chainFirstStreamableBlock) {
 			return fmt.Errorf("invalid start block %d, must be >= %d (the first streamable block of the chain)", request.StartBlockNum, chainFirstStreamableBlock)
 		} else if request.StartBlockNum < 0 && request.StopBlockNum > 0 {
@@ -224,85 +314,100 @@ func runTier1(o *outcome, request *pbsubstreamsrpc.Request, env t1env) {
 		}
 	}
 
-	var details *struct {
-		production                  bool
-		resolvedStart, handoff, end uint64
-	}
-	if !o.do("t1/request-details", func() error {
+	var details *reqctx.RequestDetails
+	if !o.do("t1r/request-details", func() error {
 		rd, _, err := pipeline.BuildRequestDetails(ctx, request, getRecentFinalBlock, resolveCursor, getHeadBlock, env.SegmentSize)
 		if err != nil {
 			return err
 		}
 		if rd == nil {
-			o.nilResult = "t1/request-details"
+			o.nilResult = "t1r/request-details"
 			return nil
 		}
 		if rd.ResolvedStartBlockNum == request.StopBlockNum && request.StopBlockNum != 0 {
 			return fmt.Errorf("start block and stop block are the same")
 		}
-		details = &struct {
-			production                  bool
-			resolvedStart, handoff, end uint64
-		}{rd.ProductionMode, rd.ResolvedStartBlockNum, rd.LinearHandoffBlockNum, rd.StopBlockNum}
-		_ = execGraph.ModuleHashes().Get(rd.OutputModule)
+		details = rd
 		return nil
 	}) || o.nilResult != "" {
 		return
 	}
-	if !o.do("t1/validate-start-block", func() error {
-		return execGraph.ValidateRequestStartBlock(details.resolvedStart)
+	if !o.do("t1r/validate-start-block", func() error {
+		return execGraph.ValidateRequestStartBlock(details.ResolvedStartBlockNum)
 	}) {
 		return
 	}
-	if !o.do("t1/execout-configs", func() error {
-		_, err := execout.NewConfigs(cacheStore(), execGraph.UsedModules(), execGraph.ModuleHashes(), env.SegmentSize, chainFirstStreamableBlock, logger)
+	if !o.do("t1r/configs", func() error {
+		base, err := dstore.NewStore(freshMemoryURL("t1r"), "zst", "zstd", true)
+		if err != nil {
+			return fmt.Errorf("harness: %w", err)
+		}
+		if _, err := execout.NewConfigs(base, execGraph.UsedModules(), execGraph.ModuleHashes(), env.SegmentSize, chainFirstStreamableBlock, logger); err != nil {
+			return err
+		}
+		_, err = store.NewConfigMap(base, execGraph.Stores(), execGraph.ModuleHashes(), chainFirstStreamableBlock)
 		return err
 	}) {
 		return
 	}
-	if !o.do("t1/store-configs", func() error {
-		_, err := store.NewConfigMap(cacheStore(), execGraph.Stores(), execGraph.ModuleHashes(), chainFirstStreamableBlock)
-		return err
-	}) {
-		return
-	}
-	o.do("t1/plan", func() error {
+	o.do("t1r/plan", func() error {
 		scheduleStores := execGraph.StagedUsedModules()[0].LastLayer().IsStoreLayer()
 		var lowestStoresInitBlock uint64
 		if scheduleStores {
 			lowestStoresInitBlock = *execGraph.LowestStoresInitBlock()
 		}
 		reqPlan, err := plan.BuildTier1RequestPlan(
-			details.production,
+			details.ProductionMode,
 			env.SegmentSize,
 			execGraph.LowestInitBlock(),
 			lowestStoresInitBlock,
-			details.resolvedStart,
-			details.handoff,
-			details.end,
+			details.ResolvedStartBlockNum,
+			details.LinearHandoffBlockNum,
+			details.StopBlockNum,
 			scheduleStores,
 		)
 		if err != nil {
 			return err
 		}
 		if reqPlan == nil {
-			o.nilResult = "t1/plan"
+			o.nilResult = "t1r/plan"
 			return nil
 		}
 		_ = reqPlan.String() // logged by blocks()
-		_ = execGraph.OutputModuleStageIndex()
 		return nil
 	})
 }
 
 // ---------------------------------------------------------------- tier 2
 
-// runTier2 chains the calls exactly as service.Tier2Service.ProcessRange and .processRange do, up to the execution plan
-// (the object stores named by the request are replaced by one empty in-memory store; the metering plugin is not created).
-func runTier2(o *outcome, request *pbssinternal.ProcessRangeRequest) {
-	ctx := context.Background()
-	logger := zap.NewNop()
+// safeStoreURL keeps the request's store URL when opening it cannot touch the file system or the network
+// (memory://, or a scheme dstore does not know: an error is then the expected outcome), and replaces it by a
+// fresh in-memory store otherwise (relative paths, file://, gs://, s3://, az://).
+func safeStoreURL(u, tag string) (string, bool) {
+	if strings.HasPrefix(u, "memory://") {
+		return u, false
+	}
+	if i := strings.Index(u, "://"); i > 0 {
+		switch u[:i] {
+		case "file", "gs", "s3", "az":
+		default:
+			ok := true
+			for _, ch := range u[:i] {
+				if !(ch >= 'a' && ch <= 'z') {
+					ok = false
+				}
+			}
+			if ok {
+				return u, false // unknown scheme: dstore answers with an error
+			}
+		}
+	}
+	return freshMemoryURL(tag), true
+}
 
+// runTier2: request validation as Tier2Service.ProcessRange does it, then the REAL Tier2Service.processRange
+// through service.TestNewServiceTier2(...).TestProcessRange with a block source that delivers no block.
+func runTier2(ctx context.Context, o *outcome, request *pbssinternal.ProcessRangeRequest) {
 	if !o.do("t2/validate", func() error {
 		if request.Modules == nil {
 			return fmt.Errorf("missing modules in request")
@@ -315,59 +420,20 @@ func runTier2(o *outcome, request *pbssinternal.ProcessRangeRequest) {
 	}) {
 		return
 	}
-	var execGraph *exec.Graph
-	if !o.do("graph", func() (err error) {
-		execGraph, err = exec.NewOutputModuleGraph(request.OutputModule, true, request.Modules, request.FirstStreamableBlock)
-		if err == nil && execGraph == nil {
-			o.nilResult = "graph"
+	o.route = "real"
+	var sanitized bool
+	request.StateStore, sanitized = safeStoreURL(request.StateStore, "state")
+	o.sanitized = o.sanitized || sanitized
+	request.MergedBlocksStore, sanitized = safeStoreURL(request.MergedBlocksStore, "blocks")
+	o.sanitized = o.sanitized || sanitized
+	o.do("t2/processrange", func() error {
+		sctx, err := serviceContext(ctx, reqctx.Tier2RequestParameters{
+			MeteringConfig: "null://", FirstStreamableBlock: request.FirstStreamableBlock, MergedBlockStoreURL: request.MergedBlocksStore, StateStoreURL: request.StateStore,
+			StateBundleSize: request.SegmentSize, StateStoreDefaultTag: request.StateStoreDefaultTag, BlockType: request.BlockType,
+		})
+		if err != nil {
+			return fmt.Errorf("harness: %w", err)
 		}
-		return err
-	}) || o.nilResult != "" {
-		return
-	}
-	var startBlock, stopBlock uint64
-	if !o.do("t2/request-details", func() error {
-		rd := pipeline.BuildRequestDetailsFromSubrequest(request)
-		if rd == nil {
-			o.nilResult = "t2/request-details"
-			return nil
-		}
-		_ = execGraph.ModuleHashes().Get(rd.OutputModule)
-		startBlock = request.StartBlock()
-		stopBlock = request.StopBlock()
-		return nil
-	}) || o.nilResult != "" {
-		return
-	}
-	var execOutputConfigs *execout.Configs
-	if !o.do("t2/execout-configs", func() (err error) {
-		execOutputConfigs, err = execout.NewConfigs(
-			cacheStore(),
-			execGraph.UsedModulesUpToStage(int(request.Stage)),
-			execGraph.ModuleHashes(),
-			request.SegmentSize,
-			request.FirstStreamableBlock,
-			logger)
-		return err
-	}) {
-		return
-	}
-	var storeConfigs store.ConfigMap
-	if !o.do("t2/store-configs", func() (err error) {
-		storeConfigs, err = store.NewConfigMap(cacheStore(), execGraph.Stores(), execGraph.ModuleHashes(), request.FirstStreamableBlock)
-		return err
-	}) {
-		return
-	}
-	var indexConfigs *index.Configs
-	if !o.do("t2/index-configs", func() (err error) {
-		indexConfigs, err = index.NewConfigs(cacheStore(), execGraph.UsedIndexesModulesUpToStage(int(request.Stage)), execGraph.ModuleHashes(), request.FirstStreamableBlock, logger)
-		return err
-	}) {
-		return
-	}
-	o.do("t2/execution-plan", func() error {
-		_, err := service.GetExecutionPlan(ctx, logger, execGraph, request.Stage, startBlock, stopBlock, request.OutputModule, execOutputConfigs, indexConfigs, storeConfigs)
-		return err
+		return service.TestNewServiceTier2(false, noBlockStreamFactory).TestProcessRange(sctx, request, discard)
 	})
 }
